@@ -611,4 +611,52 @@ MUTANTS = [
       "                Stream::Unit(state) => {\n                    #[cfg(feature = \"debugger\")]\n                    if self.debug_enabled {\n                        self.debugger.new_solution(stream, &state);\n                    }\n                    return Some(state);",
       "                Stream::Unit(state) => {\n                    if false { return Some(state); }\n                    *stream = Stream::Unit(state);\n                    return None;",
       {"C09": "none-leaves-empty"}),
+    M("c21-hash-name", ["C21"], "src/lterm.rs",
+      "            LTermInner::Var(uid, _) => uid.hash(state),", "            LTermInner::Var(uid, name) => { uid.hash(state); name.hash(state) }", {"C21": "variant=Var"}),
+    M("c21-eq-by-name", ["C21"], "src/lterm.rs",
+      "(LTermInner::Var(self_uid, _), LTermInner::Var(other_uid, _)) => self_uid == other_uid,", "(LTermInner::Var(_, a), LTermInner::Var(_, b)) => a == b,", {"C21": "variant=Var"}),
+    M("c21-eq-head-only", ["C21"], "src/lterm.rs",
+      "                (self_head == other_head) & (self_tail == other_tail)", "                self_head == other_head", {"C21": "variant=Cons"}),
+    M("c21-f14-returns", ["C21"], "src/lterm.rs",
+      """        let current = self.maybe_next.take()?;
+        if current.is_empty() {
+            // Iterator is finished
+            return None;
+        }
+        if !current.is_non_empty_list() {
+            // If the list is improper, it ends in non-cons term.
+            return Some(current);
+        }
+        match current.as_mut() {
+            LTermInner::Cons(head, tail) => {
+                if !tail.is_empty() {
+                    // Otherwise the iterator has finished the list after this one
+                    self.maybe_next = Some(tail);
+                }
+
+                Some(head)
+            }
+            _ => None,
+        }""",
+      """        match self.maybe_next.take().map(|x| x.as_mut()) {
+            Some(LTermInner::Cons(head, tail)) => {
+                if tail.is_empty() {
+                    self.maybe_next = None;
+                } else {
+                    let _ = self.maybe_next.replace(tail);
+                }
+                Some(head)
+            }
+            Some(LTermInner::Empty) => {
+                self.maybe_next = None;
+                None
+            }
+            Some(_) => self.maybe_next.take(),
+            _ => None,
+        }""",
+      {"C21": "LTermIterMut"}),
+    M("c21-from-array-norev", ["C21"], "src/lterm.rs",
+      "            for t in a.to_vec().into_iter().rev() {", "            for t in a.to_vec().into_iter() {", {"C21": "from_array"}),
+    M("c21-mixed-equal", ["C21"], "src/lterm.rs",
+      "            (LTermInner::Empty, LTermInner::Empty) => true,", "            (LTermInner::Empty, LTermInner::Empty) => true,\n            (LTermInner::Empty, LTermInner::Val(_)) => true,", {"C21": ""}),
 ]
